@@ -77,7 +77,7 @@ Proof.
   rewrite lookup_fold_update by discriminate. cbn [update_start].
   destruct (lw UAll k R) eqn:L; cbn; try discriminate.
   intros _. apply lw_some_inv in L. destruct L as [r [HI W]].
-  apply write_of_facts in W. destruct W as [V [K _]]. eauto.
+  apply write_of_facts in W. destruct W as [V [K _]]. apply records_violating in V. eauto.
 Qed.
 
 Lemma all_contains_recordable : forall R ex r,
@@ -246,7 +246,7 @@ Proof. destruct e; reflexivity. Qed.
 Lemma content_mode_preserves : forall R b k e, is_structure_entry e = true ->
   (lookup k (update_baseline_from_results R UContent (Some b)) = Some e <->
    lookup k b = Some e /\
-   forall r, In r R -> violating r = true -> is_structure r = false -> key_of r <> k).
+   forall r, In r R -> records r = true -> is_structure r = false -> key_of r <> k).
 Proof.
   intros R b k e SE. unfold update_baseline_from_results.
   rewrite lookup_fold_update by discriminate. cbn [update_start existing_or_empty].
@@ -270,7 +270,7 @@ Qed.
 Lemma structure_mode_preserves : forall R b k e, is_content_entry e = true ->
   (lookup k (update_baseline_from_results R UStructure (Some b)) = Some e <->
    lookup k b = Some e /\
-   forall r, In r R -> violating r = true -> baselinable r <> None -> key_of r <> k).
+   forall r, In r R -> records r = true -> baselinable r <> None -> key_of r <> k).
 Proof.
   intros R b k e CE. unfold update_baseline_from_results.
   rewrite lookup_fold_update by discriminate. cbn [update_start existing_or_empty].
@@ -281,7 +281,8 @@ Proof.
     + intros [_ H]. exfalso. apply lw_some_inv in L. destruct L as [r [HI W]].
       pose proof (write_of_facts _ _ _ _ W) as [V [K [Rc [HC HS]]]].
       destruct (is_structure r) eqn:S.
-      * apply (H r HI V); auto. unfold recordable in Rc. rewrite S in Rc. cbn in Rc.
+      * apply (H r HI V); auto. unfold recordable in Rc. apply andb_true_iff in Rc.
+        destruct Rc as [_ Rc]. rewrite S in Rc. cbn in Rc.
         destruct (baselinable r); congruence.
       * destruct (HC eq_refl) as [_ [M|M]]; discriminate.
   - split.
@@ -302,11 +303,11 @@ Lemma modes_preserve_other_kind : forall R dirs b we k e,
   (is_structure_entry e = true ->
    (olookup k d1 = Some e <->
     lookup k (rekey b) = Some e /\
-    forall r, In r R -> violating r = true -> is_structure r = false -> key_of r <> k)) /\
+    forall r, In r R -> records r = true -> is_structure r = false -> key_of r <> k)) /\
   (is_content_entry e = true ->
    (olookup k d2 = Some e <->
     lookup k (rekey b) = Some e /\
-    forall r, In r R -> violating r = true -> baselinable r <> None -> key_of r <> k)).
+    forall r, In r R -> records r = true -> baselinable r <> None -> key_of r <> k)).
 Proof.
   intros R dirs b we k e d1 d2. subst d1 d2. rewrite !update_run_disk. cbn [olookup view]. split; intro H.
   - apply content_mode_preserves; assumption.
@@ -390,7 +391,7 @@ Qed.
 Lemma step_disk_keys : forall fl R dirs disk k,
   ocontains k (o_disk (check_step fl R dirs disk)) = true ->
   from_disk k disk \/
-  (f_update fl <> None /\ In k (map key_of (filter violating R))).
+  (f_update fl <> None /\ In k (map key_of (filter records R))).
 Proof.
   intros fl R dirs disk k. unfold check_step.
   destruct (load_for_run fl disk) as [loaded|] eqn:HL; cbn [o_disk]; [|left; left; assumption].
@@ -403,8 +404,8 @@ Proof.
   set (ro := handle_baseline_ratchet _ _ rs1 _ loaded).
   assert (D1 : forall k', ocontains k' (if ro_saved ro then ro_baseline ro else disk) = true -> from_disk k' disk).
   { intros k' H. destruct (ro_saved ro); [|left; assumption]. apply LD. subst ro. eapply ratchet_sub; eauto. }
-  assert (VK : map key_of (filter violating rs1) = map key_of (filter violating R)).
-  { subst rs1. destruct loaded; auto. rewrite apply_is_map. apply violating_keys_apply. }
+  assert (VK : map key_of (filter records rs1) = map key_of (filter records R)).
+  { subst rs1. destruct loaded; auto. rewrite apply_is_map. apply records_keys_apply. }
   destruct (f_update fl) as [m|] eqn:HU.
   - intro H. cbn [ocontains] in H. apply contains_lookup in H. destruct H as [e H].
     apply update_origin in H. destruct H as [H|H].
@@ -426,14 +427,14 @@ Section HistoryInv.
   Notation op := (op project).
   Notation hstate := (hstate project).
 
-  (* keys of the results that were violating when an update ran *)
+  (* keys of the results that were violating, and had a key, when an update ran *)
   Definition op_written (st : hstate) (o : op) : list key :=
     match o with
     | Edit _ _ => []
-    | Update _ _ _ => map key_of (filter violating (eval (h_proj _ st)))
+    | Update _ _ _ => map key_of (filter records (eval (h_proj _ st)))
     | CheckWith _ fl s =>
       match f_update fl with
-      | Some _ => map key_of (filter violating (restrict s (eval (h_proj _ st))))
+      | Some _ => map key_of (filter records (restrict s (eval (h_proj _ st))))
       | None => []
       end
     end.
